@@ -22,7 +22,7 @@ def _env():
 
 
 CHUNK = int(os.environ.get("FLACVERIF_KANI_CHUNK", "14"))
-WORKERS = int(os.environ.get("FLACVERIF_KANI_WORKERS", "3"))
+WORKERS = int(os.environ.get("FLACVERIF_KANI_WORKERS", "6"))
 _TIMES = None
 
 
